@@ -6,7 +6,7 @@ THEOREMS = ['C04.write_wellFormed', 'C04.write_count', 'C04.response_wellFormed'
 TRUSTED = c03.TRUSTED
 ASSUMPTIONS = ['well-formedness is judged by Spec/Bundle.lean WellFormed (proved for every output of the model writer); the correspondence compares Go\'s bytes with the model\'s bytes for both destination kinds and Go\'s returned count with the number of bytes the destination received']
 RULE = ('same bundle space as C03 (versions x exchanges x URL shapes x header maps x statuses x body length classes x optional sections x b1 Variants sets); compared ops: bundle.write (destination implementing io.ReaderFrom: bytes.Buffer) and '
-        'bundle.write.plain (destination without ReaderFrom), incl. returned count = bytes received (count-mismatch is a disagreement); non-trivial = bundle with at least one exchange')
+        'bundle.write.plain (destination without ReaderFrom), incl. returned count = bytes received (count-mismatch is a disagreement); destinations that fail after k bytes (plain io.Writer, + WriteByte / WriteString / ReadFrom, bufio.Writer of the caller, /dev/full; short write / error return; k at both ends, around every conventional buffer size and within a buffer size of the end) for bundles below / above 4096 and 8192 bytes: error iff k < size, accepted bytes are a prefix, count = accepted; non-trivial = bundle with at least one exchange')
 EXHAUSTIVE = {}
 agree = Base.agree; signature = Base.signature; explain = Base.explain
 nontrivial = c03.nontrivial
@@ -22,6 +22,53 @@ def run(ctx):
     ctx.both([f'bundle.write.cw {b}' for b in bundles[::2]])
     # CountingWriter accounting (observation point CountingWriter.Written): Write / ReadFrom sequences, three destination kinds
     ctx.both(cw_ops(rng, 150 if not thorough else 3000))
+    # destinations that FAIL: the count returned = bytes the destination accepted, and "no error" only for the complete bundle
+    failing_destinations(ctx, thorough)
+
+
+def fault_positions(T, dense):
+    """failure positions for an output of T bytes: both ends, the middle, every buffer-size boundary a writer in between might
+    have (16 ... 65536, and its multiples inside the output), distances from the end up to a buffer size"""
+    ks = set(range(0, T + 1)) if dense else set()
+    ks |= set(range(0, 12)) | {T + 5, T // 2, T // 3}
+    for d in list(range(0, 41)) + [64, 100, 255, 256, 511, 512, 513, 1000, 4095, 4096, 4097, 8192]:
+        ks.add(T - d)
+    for b in (16, 64, 512, 1024, 4096, 8192, 32768, 65536):
+        for m in range(1, 4):
+            ks |= {b * m - 1, b * m, b * m + 1}
+        ks |= {T - T % b - 1, T - T % b, T - T % b + 1}      # the last full buffer before the end
+    return sorted(k for k in ks if 0 <= k <= T + 5)
+
+
+def failing_destinations(ctx, thorough):
+    """`fault bundle` (destination: a plain io.Writer that runs out of room after k bytes, short-write and error-return flavour) and
+    `fault.destio` (the same destination offering WriteByte / WriteString / ReadFrom / all of them, a caller's bufio.Writer, /dev/full)
+    for b1 / b2 bundles whose size is below one, between one and two, and above several conventional buffer sizes"""
+    U = b'https://example.com/'
+    arts = []
+    for ver in ('b1', 'b2'):
+        for blen in (13, 6000, 9000) + ((70000,) if thorough else ()):
+            arts.append(bundle(ver, U, None, None, [exch(U, 200, [(b'Content-Type', [b'text/plain'])], b'p' * blen)]))
+        arts.append(bundle(ver, U, None, None, []))
+        arts.append(bundle(ver, U, U + b'manifest' if ver == 'b1' else None, None, [exch(U, 200, [(b'A', [b'1'])], b'x' * 4000), exch(U + b'2', 404, [], b''), exch(U + b'3', 200, [(b'B', [b'2', b'3'])], b'y' * 5000)]))
+    lens = ctx.go([f'faultlen bundle {a}' for a in arts])
+    ctx.both([f'faultlen bundle {a}' for a in arts])
+    ops = []
+    for a, ln in zip(arts, lens):
+        if not (ln and ln.startswith('ok ')):
+            ctx.infra.append('C04 failing_destinations: artifact could not be written'); continue
+        T = int(ln.split(' ')[1])
+        ks = fault_positions(T, dense=T <= 400)
+        for k in ks:
+            for mode in ('short', 'error'):
+                ops.append(f'fault bundle {k} {mode} {a}')
+        sub = ks if T <= 400 else [k for k in ks if k < 12 or k > T - 24 or k % 4096 in (0, 1, 4095) or k in (T // 2, T // 3)]
+        for i, k in enumerate(sub):
+            for j, dk in enumerate(('plain', 'bw', 'sw', 'rf', 'all', 'bufio')):
+                if T <= 400 and (i + j) % 3 and 12 <= k <= T - 24: continue
+                ops.append(f'fault.destio {dk} bundle {k} {"short" if (i + j) % 2 else "error"} {a}')
+        ops.append(f'fault.destio devfull bundle 0 error {a}')
+    ctx.both(ops)
 
 
 def cw_ops(rng, n):
